@@ -120,7 +120,7 @@ Proof. unfold itoa. destruct (Z.ltb z 0); [discriminate|apply dec_of_N_nonempty]
 
 (* what the string -> int conversion sees for Itoa's output: exactly z *)
 Lemma int_of_string_itoa z :
-  int_of_string (itoa z) = (let f := round53 z in if in_int64 f then Ok f else Err 3).
+  int_of_string (itoa z) = (let f := round53 z in if float_overflow f then Err 1 else Ok (go_int_of_float f)).
 Proof.
   unfold int_of_string. rewrite (trim_space_no_space _ (itoa_no_space z)).
   assert (D : default_zero (itoa z) = itoa z).
@@ -145,12 +145,26 @@ Proof.
     cbn [Z.mul Z.ltb Z.compare]. change (2 ^ 52 * 2)%Z with (2 ^ 53)%Z. lia.
 Qed.
 
+Lemma pow53_small : (2 ^ 53 < 2 ^ 63)%Z /\ (2 ^ 53 < 2 ^ 1024)%Z.
+Proof. split; reflexivity. Qed.
+
 Lemma int_roundtrip z : (Z.abs z <= 2 ^ 53)%Z -> int_of_string (string_of_int z) = Ok z.
 Proof.
   intro H. unfold string_of_int. rewrite int_of_string_itoa. cbn zeta.
-  rewrite (round53_exact z H).
-  assert (in_int64 z = true) by (unfold in_int64; lia). rewrite H0. reflexivity.
+  rewrite (round53_exact z H). destruct pow53_small as [P1 P2].
+  assert (O : float_overflow z = false).
+  { unfold float_overflow. destruct (Z.leb_spec (2 ^ 1024) (Z.abs z)); [lia|reflexivity]. }
+  assert (I : in_int64 z = true).
+  { unfold in_int64. apply andb_true_iff; split; [apply Z.leb_le|apply Z.ltb_lt]; lia. }
+  rewrite O. unfold go_int_of_float. rewrite I. reflexivity.
 Qed.
+
+(* beyond int64 the conversion gives amd64's -2^63, e.g. for 2^63 itself and for 10^19 *)
+Lemma int_beyond_int64 :
+  int_of_string (string_of_int (2 ^ 63)) = Ok (- 2 ^ 63)%Z /\
+  int_of_string (string_of_int (10 ^ 19)) = Ok (- 2 ^ 63)%Z /\
+  int_of_string (string_of_int (- 2 ^ 63)) = Ok (- 2 ^ 63)%Z.
+Proof. repeat split; vm_compute; reflexivity. Qed.
 
 (* the bound is sharp: the next integer does not survive, in either direction *)
 Lemma int_roundtrip_sharp :
